@@ -296,10 +296,11 @@ impl NativeFunctionCall {
 
         for (list_item, list_item_value) in list_val.items.iter() {
             let target_int = {
+                // (wrapping, like every other integer operation of the story)
                 if self.op == Op::Add {
-                    list_item_value + int_val
+                    list_item_value.wrapping_add(int_val)
                 } else {
-                    list_item_value - int_val
+                    list_item_value.wrapping_sub(int_val)
                 }
             };
 
